@@ -390,4 +390,70 @@ def run(ctx):
                 else:
                     r.ok("%s: %s waits without limit" % (m_.short, norm(c)))
 
+    # ---------------------------------------------------------------- R11
+    r = ctx.rule("C19-R11", "OWNER", "'the spinner stops when asked': a stop request cannot be lost - the code the spinner thread runs never resets the stop event (clear()), "
+                 "whatever the order in which the two threads get to run", reference=1)
+    n11 = 0
+    for f in sorted(thread_side.values(), key=lambda x: x.qualname):
+        if f.cls is not pi:
+            continue
+        for c in q.calls(f):
+            if isinstance(c.func, ast.Attribute) and c.func.attr == "clear" and is_self_attr(c.func.value, stop_attr):
+                n11 += 1
+                r.fail(f, c, "%s on the spinner side" % norm(c), "%s resets the stop event from the spinner thread: when the caller sets it before the new thread has run its first statement the request "
+                       "is wiped - the spinner never stops and join() never returns" % f.short)
+    if n11 == 0:
+        r.ok("no function on the spinner side resets self.%s" % stop_attr)
+
+    # ---------------------------------------------------------------- R12
+    r = ctx.rule("C19-R12", "UNIT", "'redraws no more often than the interval': the redraw deadline is kept in milliseconds (the interval's unit) - every value stored in it comes from "
+                 "the millisecond clock, never from time.time() (seconds) or a field holding it", reference=2)
+    ms_fn = next((n_ for n_, m_ in methods.items() if "millisecond" in n_), None)
+    ctx.require(ms_fn is not None, "the millisecond clock helper of ProgressIndicator was not found")
+    # the deadline field: the attribute compared with the millisecond clock
+    deadline = set()
+    for m_ in methods.values():
+        for x in walk_no_nested(m_.node):
+            if isinstance(x, ast.Compare) and any(isinstance(y, ast.Call) and isinstance(y.func, ast.Attribute) and y.func.attr == ms_fn for y in ast.walk(x)):
+                deadline |= {y.attr for y in ast.walk(x) if is_self_attr(y)}
+    if not deadline:
+        # compared through a local holding the clock value
+        for m_ in methods.values():
+            clk = {t.id for n_ in walk_no_nested(m_.node) if isinstance(n_, ast.Assign) and any(isinstance(y, ast.Call) and isinstance(y.func, ast.Attribute) and y.func.attr == ms_fn for y in ast.walk(n_.value))
+                   for t in n_.targets if isinstance(t, ast.Name)}
+            for x in walk_no_nested(m_.node):
+                if isinstance(x, ast.Compare) and any(isinstance(y, ast.Name) and y.id in clk for y in ast.walk(x)):
+                    deadline |= {y.attr for y in ast.walk(x) if is_self_attr(y)}
+    ctx.require(deadline, "the redraw deadline (field compared with the millisecond clock) was not found")
+    for name_, m_ in sorted(methods.items()):
+        clk = {t.id for n_ in walk_no_nested(m_.node) if isinstance(n_, ast.Assign) and any(isinstance(y, ast.Call) and isinstance(y.func, ast.Attribute) and y.func.attr == ms_fn for y in ast.walk(n_.value))
+               for t in n_.targets if isinstance(t, ast.Name)}
+        for node_, kind_, t_ in [w for d_ in deadline for w in q.writes_to_self_attr(m_, d_)]:
+            if not isinstance(node_, (ast.Assign, ast.AugAssign)):
+                continue
+            v = node_.value
+            from_ms = any(isinstance(y, ast.Call) and isinstance(y.func, ast.Attribute) and y.func.attr == ms_fn for y in ast.walk(v)) or any(isinstance(y, ast.Name) and y.id in clk for y in ast.walk(v))
+            const0 = isinstance(v, ast.Constant)
+            if from_ms or const0 or isinstance(node_, ast.AugAssign):
+                r.ok("%s: %s in milliseconds" % (m_.short, norm(node_)[:60]))
+            else:
+                r.fail(m_, node_, norm(node_)[:70], "%s sets the redraw deadline from `%s`, which is not the millisecond clock: seconds plus a millisecond interval lie far in the past, so the next advance() "
+                       "redraws at once whatever the interval" % (m_.short, norm(v)[:50]))
+
+    # ---------------------------------------------------------------- R13
+    r = ctx.rule("C19-R13", "LOCKSET", "'every frame shows the current message': a frame is rendered (message and indicator read) and written under one lock - the renderer callback is "
+                 "referenced only inside the lock that also covers the writes", reference=1)
+    n13 = 0
+    for name_, m_ in sorted(methods.items()):
+        for x in walk_no_nested(m_.node):
+            if isinstance(x, ast.Attribute) and x.attr == "_overwrite_callback" and isinstance(x.value, ast.Name) and x.value.id == "self" and isinstance(x.ctx, ast.Load):
+                n13 += 1
+                if under_lock(m_, x) or all_callers_locked(m_)[0]:
+                    r.ok("%s: the frame is rendered under the lock" % m_.short)
+                else:
+                    r.fail(m_, x, "frame rendered outside the lock", "%s renders the frame (reads the message and the indicator) before it takes the lock that covers the writes: a spinner holding a frame rendered from "
+                           "the old message draws it over the frame the caller wrote for the new message" % m_.short)
+    if n13 == 0 or not lock_attrs:
+        r.vacuous_ok = True
+
     return ctx.results
